@@ -48,7 +48,7 @@ class Unit:
     profiles: list = field(default_factory=list)   # weave profiles
     tables: bool = False              # needs lang_*.c
     extra_sources: list = field(default_factory=list)  # extracted sources to link, e.g. src/gf.c
-    unwind: int = 20
+    unwind: int = 40
     unwindset: list = field(default_factory=list)
     object_bits: int = 12
     defines: list = field(default_factory=list)
@@ -63,7 +63,7 @@ class Unit:
     functions: list = field(default_factory=list)     # functions under contract in this unit
     expect_loop_obligations: int = 0  # minimum number of loop-invariant obligations required
     canary: bool = True
-    solver: list = field(default_factory=list)  # extra cbmc flags e.g. ['--sat-solver','cadical']
+    solver: list = field(default_factory=lambda: ["--sat-solver", "cadical"])  # cbmc back-end flags
     props: list = field(default_factory=list)
     note: str = ""
     no_nondet_static: bool = False
@@ -86,7 +86,7 @@ class Result:
     cmd: str = ""
     log: str = ""
     samples: list = field(default_factory=list)
-    backend: str = "MiniSat 2.2.1 (cbmc default)"
+    backend: str = "cbmc 6.11.0 SAT back end"
 
 
 def sh(cmd, cwd=None, timeout=None, mem_gb=8, stdout_path=None):
